@@ -633,11 +633,21 @@ func c03Unit(ctx *Ctx, res *Result, rng *Rng) {
 	}
 	// the generator must keep reaching every operation kind with a logged effect
 	need := map[string]int{"U.logged.R": 200, "U.logged.A": 50, "U.logged.B": 50, "U.logged.D": 50, "U.logged.S": 20, "U.logged.C": 10,
-		"U.op.replaceafter": 200, "U.op.replaceat": 200, "U.event.save": 200, "U.event.sort": 50, "U.cases_with_continuation_lines": 200, "U.files_rewritten": 200, "U.with_only": 100, "U.panics": 20,
-		"U.chmod_done": 20, "U.chmod_skipped_under_only": 5}
+		"U.op.replaceafter": 200, "U.op.replaceat": 200, "U.event.save": 200, "U.event.sort": 50, "U.cases_with_continuation_lines": 200, "U.files_rewritten": 200, "U.with_only": 100, "U.panics": 20}
 	for k, min := range need {
 		if c, _ := res.Distribution[k].(int); c < min {
 			res.Broken = fmt.Sprintf("unit generator lost its coverage: %s = %d < %d", k, c, min)
+			return
+		}
+	}
+	// assertions about the implementation (not about the generator): the executable-bit fix is
+	// performed when selected and skipped under a non-matching --only; if the real code stops doing
+	// either, the correspondence of Custom / --only is gone -> a violation without input, not a broken check
+	for k, min := range map[string]int{"U.chmod_done": 20, "U.chmod_skipped_under_only": 5} {
+		if c, _ := res.Distribution[k].(int); c < min {
+			res.AddViolation(Violation{Key: "C03/coverage/unit-custom-only", FoundInput: false,
+				What:   fmt.Sprintf("unit scripts: %s = %d < %d: the executable-bit fix is no longer observed both done and skipped under --only", k, c, min),
+				Replay: map[string]any{"broken": "coverage floor " + k + " (correspondence of Autofix.Custom under --only)"}})
 			return
 		}
 	}
